@@ -244,6 +244,11 @@ class RpcClient:
             dec_stub = self._auth.unwrap(header, body, sec_trailer, signature, self._sign_header)
             response[encrypt_offsets[0] : sec_trailer_offset] = dec_stub
 
+        elif self._auth and encrypt_offsets and pdu_header.packet_type == PacketType.RESPONSE:
+            # The request was sealed, a response without a security trailer
+            # did not come from the peer holding the security context.
+            raise ValueError("Received Response without a security trailer on an authenticated connection")
+
         pdu_resp = PDU.unpack(response)
         if isinstance(pdu_resp, BindNak):
             raise ValueError(f"Received BindNack with reason 0x{pdu_resp.reject_reason:08X}")
